@@ -42,6 +42,8 @@ FLOORS = {
                                                    "faithful.final_key_sets_compared": 4000},
                  "seen": {"faithful.strategy": 8}},
 }
+# W5: the repository's own test suite runs once under these ambient monitors (thorough tier)
+W5_MONITORS = ['faithful', 'classdb']
 CASE_TIMEOUT = {"quick": 60, "thorough": 120}
 SIZES = {"quick": (600, 250), "thorough": (12000, 5000)}
 
